@@ -404,7 +404,6 @@ class ValueWrapper(Term):
         if isinstance(value, (date, time)):
             return cls.get_formatted_value(value.isoformat(), ctx)
         if isinstance(value, str):
-            value = value.replace(quote_char, quote_char * 2)
             return format_quotes(value, quote_char)
         if isinstance(value, bool):
             return str(value).lower()
